@@ -62,6 +62,8 @@ class Keys:
             return f"{xpub}/{branch}/*", {"node": self.payload(xpub), "path": [nat(branch)], "wild": 1}, {}
         if kind == "[o]xpub/b/*":
             return f"{origin}{xpub}/{branch}/*", {"node": self.payload(xpub), "path": [nat(branch)], "wild": 1}, {}
+        if kind == "[fp]xpub/b/*":          # an origin that is a fingerprint and no path
+            return f"[{fp}]{xpub}/{branch}/*", {"node": self.payload(xpub), "path": [nat(branch)], "wild": 1}, {}
         if kind == "xpub/b/c":
             return f"{xpub}/{branch}/7", {"node": self.payload(xpub), "path": [nat(branch), nat(7)], "wild": 0}, {}
         if kind == "xpub":
@@ -78,7 +80,7 @@ class Keys:
 def descriptors_for(keys: Keys, net: str, rnd: random.Random, thorough: bool) -> list[tuple[str, dict[str, Any], bool]]:
     """(text, AST, needs private keys) for every function and nesting, keys in every spelling."""
     out: list[tuple[str, dict[str, Any], bool]] = []
-    kinds_c = ["xpub/b/*", "[o]xpub/b/*", "xpub/b/c", "sec", "xprv/bh/*", "xprv/b/*h", "root/44h/0h/0h/b/*", "xpub"]
+    kinds_c = ["xpub/b/*", "[o]xpub/b/*", "[fp]xpub/b/*", "xpub/b/c", "sec", "xprv/bh/*", "xprv/b/*h", "root/44h/0h/0h/b/*", "xpub"]
 
     def K(kind: str, who: int = 0, branch: int = 0) -> tuple[str, dict[str, Any], bool]:
         t, a, p = keys.key(kind, net, who, branch)
@@ -125,6 +127,20 @@ def descriptors_for(keys: Keys, net: str, rnd: random.Random, thorough: bool) ->
         for perm in ([leaves[:4], leaves[2:6], [leaves[4], leaves[0], leaves[5], leaves[1]]] if thorough else [leaves[:4], [leaves[4], leaves[0], leaves[5], leaves[1]]]):
             tt, ta = shape(perm)
             out.append((f"tr({ti},{tt})", {"f": "tr", "k": ai, "tree": ta}, False))
+    # BIP390 musig(): as the internal key, in a leaf, in rawtr; participants ranged or the aggregate ranged (BIP328), fixed keys, an unsorted order
+    def M(parts: list[tuple[str, dict[str, Any], bool]], path: list[int], wild: int) -> tuple[str, dict[str, Any]]:
+        text = "musig(" + ",".join(p_[0] for p_ in parts) + ")" + "".join(f"/{x}" for x in path) + ("/*" if wild else "")
+        return text, {"musig": [p_[1] for p_ in parts], "path": [nat(x) for x in path], "wild": wild}
+
+    fixed = [K("xpub", j, 0) for j in range(3)]
+    ranged = [K("xpub/b/*", j, 3) for j in range(3)]
+    for parts, path, wild in ((fixed[:2], [], 0), (fixed[::-1], [0], 1), (ranged[:2], [], 0), (ranged, [], 0), (fixed[:2] + [K("sec")], [], 0), (fixed, [5, 6], 1), (fixed[1:], [2**31 - 1], 0)):
+        t, a = M(parts, path, wild)
+        out.append((f"tr({t})", {"f": "tr", "k": a, "tree": {"none": 1}}, False))
+        out.append((f"rawtr({t})", {"f": "rawtr", "k": a}, False))
+        out.append((f"tr({ti},pk({t}))", {"f": "tr", "k": ai, "tree": {"s": {"f": "pk", "k": a}}}, False))
+    t2, a2 = M(fixed[:2], [1], 1)
+    out.append((f"tr({t2},{{pk({leaves[0][0][3:-1]}),pk({M(ranged[:2], [], 0)[0]})}})", {"f": "tr", "k": a2, "tree": {"l": leaves[0][1], "r": {"s": {"f": "pk", "k": M(ranged[:2], [], 0)[1]}}}}, False))
     # addr() and raw()
     spk = bytes.fromhex("0014" + "11" * 20)
     from btclib.script.script_pub_key import ScriptPubKey
@@ -205,19 +221,26 @@ def record_descriptors(run: Run, rnd: random.Random, thorough: bool, evs: list[d
                 evs.append({"op": "agree", "what": "index_of(a foreign script) is None", "a": str(got), "b": "None", "text": text})
     # multipath expansion
     t0, a0, _ = keys.key("xpub", "mainnet", 0, 0)
-    for tmpl in ("wpkh({k}/<0;1>/*)", "wsh(sortedmulti(2,{k}/<0;1>/*,{k2}/<2;3>/*))", "tr({k}/<0;1;2>/*)", "pkh({k}/<5;6>/7)"):
+    xprv0 = keys.roots["mainnet"][0]
+    for tmpl in ("wpkh({k}/<0;1>/*)", "wsh(sortedmulti(2,{k}/<0;1>/*,{k2}/<2;3>/*))", "tr({k}/<0;1;2>/*)", "pkh({k}/<5;6>/7)",
+                 "wpkh({x}/84h/<0h;1h>/*)", "wpkh({x}/84'/<0';1'>/*)", "pkh({x}/<5h;6>/7')", "tr({x}/<0H;1H;2H>/*h)"):
         k2 = keys.key("xpub", "mainnet", 1, 0)[0]
-        text = tmpl.format(k=t0, k2=k2)
+        text = tmpl.format(k=t0, k2=k2, x=xprv0)
         got = outcome(lambda: D.multipath_descriptors(text))
-        n = 3 if "<0;1;2>" in text else 2
+        n = 3 if "<0;1;2>" in text or "<0H;1H;2H>" in text else 2
         want = []
         for j in range(n):
             w = text
-            for alt in ("<0;1>", "<2;3>", "<0;1;2>", "<5;6>"):
+            for alt in ("<0;1>", "<2;3>", "<0;1;2>", "<5;6>", "<0h;1h>", "<0';1'>", "<5h;6>", "<0H;1H;2H>"):
                 if alt in w:
                     w = w.replace(alt, alt[1:-1].split(";")[j])
             want.append(D.strip_checksum(w) if "#" in w else w)
         evs.append({"op": "agree", "what": "multipath expansion", "a": "|".join(D.strip_checksum(x) if "#" in x else x for x in got) if not isinstance(got, str) else got, "b": "|".join(want)})
+        # every expansion is a single-path descriptor that parses and derives what the same text derives written by hand
+        for x, w in zip(got if not isinstance(got, str) else [], want):
+            a = outcome(lambda: [s_.script.hex() for s_ in D.parse(x, "mainnet", {}).script_pub_keys(3, None)] if "xprv" not in x else [s_.script.hex() for s_ in (lambda pk: D.parse(x, "mainnet", pk).script_pub_keys(3, pk))({})])
+            b = outcome(lambda: [s_.script.hex() for s_ in (lambda pk: D.parse(w, "mainnet", pk).script_pub_keys(3, pk))({})])
+            evs.append({"op": "agree", "what": "an expansion derives what the single-path text derives", "a": str(a), "b": str(b), "text": x})
     return stats
 
 
@@ -307,7 +330,7 @@ def check(run: Run) -> None:
                 "with pk/multi_a/sortedmulti_a x indexes {0, 1, 2, 19, 1000, 2^31-1} x mainnet/testnet; checksums and every change of each checksum character plus sampled body "
                 "characters; round trips; multipath expansion; index_of / position_of on derived and foreign scripts; BIP32 key wallets (4 purposes), descriptor wallets (branch "
                 "labels not 0..n-1), script-template wallets (3 embeddings x key order) on both networks")
-    run.assumptions = ["musig() key expressions and miniscript fragments inside descriptors are not in this specification (miniscript is C15's)",
+    run.assumptions = ["miniscript fragments inside descriptors are not in this specification (miniscript is C15's); musig() key expressions are (BIP390 over the MuSig2 and BIP32 modules)",
                        "which script an address string names is module Address's (C06)"]
     evs: list[dict[str, Any]] = []
     s1 = record_descriptors(run, rnd, thorough, evs)
